@@ -1,6 +1,7 @@
 import Thanos.Common.Parse
 import Thanos.Model.Rules
 import Thanos.Model.Memcached
+import Thanos.Model.AlertQueue
 /-
   Line-protocol driver of the `misc` family (C45 C46 C47 C48 C49).
   One request per line, one answer per line; every line is self-contained.
@@ -27,6 +28,20 @@ import Thanos.Model.Memcached
       keys   = hexkey:hash{,hexkey:hash} | -       hash = xxhash64 of the key, decimal (input)
       single = per key the picked hexsrv, or err, joined by ","  (- for no keys)
       batch  = err | hexsrv=hexkey+hexkey{;…} sorted by server (a server without keys: hexsrv=-) | - (empty map)
+
+  C46
+    aq.run <cap> <maxBatch> <items>                     -> <events> len=<n> tok=<0|1>  |  bad-schedule
+      items  = item{;item} | -
+      item   = P<alerts>          a synchronous Push
+             | O                  a synchronous Pop: receive + body; `blocked` when there is no token
+             | W                  a popper that is left waiting on the channel when there is no token; the
+                                  next Push that sends hands the token over and the popper runs
+             | R<elem>{/<elem>}   a round: all elements queue up on the mutex (held by the harness) in this
+                                  order and then run in this order; elem = p<alerts> (a pusher) | g (a popper
+                                  that received the token BEFORE any element of the round ran; at most one)
+      alerts = id.keep{,id.keep} | -       keep = 1|0: does relabelling keep the alert
+      events = per pop body, in the order they ran: b<id>{,<id>} | b- (empty batch) | blocked | wblocked
+               (the W popper was still waiting at the end), joined by ";"  (- for none)
 -/
 open Thanos Thanos.Parse
 
@@ -135,7 +150,105 @@ def showBatch (sorted : List String) (keys : List (String × UInt64)) : String :
     let m := m.mergeSort (fun a b => !(b.1 < a.1))
     joinWith ";" (m.map fun e => e.1 ++ "=" ++ joinWith "+" (e.2.map (·.1)))
 
+/-! ### C46 -/
+
+namespace AQ
+open Thanos.AlertQueue
+
+inductive Elem where
+  | p (kept : List Nat) (n : Nat)   -- kept alerts, number of alerts pushed
+  | g
+
+inductive Item where
+  | push (kept : List Nat) (n : Nat)
+  | pop
+  | wait
+  | round (es : List Elem)
+
+def parseAlerts (s : String) : Option (List Nat × Nat) := do
+  let xs ← (listOf ',' s).mapM fun t =>
+    match splitChar '.' t with
+    | [i, k] => do
+      let i ← parseNat? i
+      if k = "1" then some (i, true) else if k = "0" then some (i, false) else none
+    | _ => none
+  pure ((xs.filter (·.2)).map (·.1), xs.length)
+
+def parseElem (s : String) : Option Elem :=
+  if s = "g" then some .g else
+  match s.toList with
+  | 'p' :: rest => do let (k, n) ← parseAlerts (String.ofList rest); pure (.p k n)
+  | _ => none
+
+def parseItem (s : String) : Option Item :=
+  if s = "O" then some .pop else if s = "W" then some .wait else
+  match s.toList with
+  | 'P' :: rest => do let (k, n) ← parseAlerts (String.ofList rest); pure (.push k n)
+  | 'R' :: rest => do let es ← (splitChar '/' (String.ofList rest)).mapM parseElem; pure (.round es)
+  | _ => none
+
+structure Run where
+  s : State Nat
+  waiting : Bool
+  events : List String
+  bad : Bool
+
+def showBatch (b : List Nat) : String := "b" ++ showNats "," b
+
+/-- receive + body of one popper (the token is there) -/
+def takePop (c : Cfg) (r : Run) : Run :=
+  match take r.s with
+  | none => { r with bad := true }
+  | some s1 =>
+    match pop c s1 with
+    | none => { r with bad := true }
+    | some (b, s2) => { r with s := s2, events := r.events ++ [showBatch b] }
+
+def pushStep (c : Cfg) (r : Run) (kept : List Nat) : Run :=
+  let r := { r with s := push c r.s kept }
+  -- a popper waiting on the channel gets the token the moment it is sent
+  if r.waiting && r.s.token then { takePop c r with waiting := false } else r
+
+def roundStep (c : Cfg) (r : Run) (es : List Elem) : Run :=
+  let ng := (es.filter fun e => match e with | .g => true | _ => false).length
+  if r.waiting || ng > 1 then { r with bad := true } else
+  -- the popper of the round receives before anything of the round runs
+  let r := if ng = 1 then
+      match take r.s with
+      | some s1 => { r with s := s1 }
+      | none => { r with bad := true }
+    else r
+  es.foldl (fun r e => match e with
+    | .p kept _ => { r with s := push c r.s kept }
+    | .g => match pop c r.s with
+      | some (b, s2) => { r with s := s2, events := r.events ++ [showBatch b] }
+      | none => { r with bad := true }) r
+
+def itemStep (c : Cfg) (r : Run) : Item → Run
+  | .push kept _ => pushStep c r kept
+  | .pop =>
+    if r.waiting then { r with bad := true }
+    else if r.s.token then takePop c r
+    else { r with events := r.events ++ ["blocked"] }
+  | .wait =>
+    if r.waiting then { r with bad := true }
+    else if r.s.token then takePop c r
+    else { r with waiting := true }
+  | .round es => roundStep c r es
+
+def runItems (c : Cfg) (items : List Item) : String :=
+  let r := items.foldl (itemStep c) { s := init, waiting := false, events := [], bad := false }
+  if r.bad then "bad-schedule" else
+  let ev := if r.waiting then r.events ++ ["wblocked"] else r.events
+  s!"{joinWith ";" ev} len={r.s.queue.length} tok={if r.s.token then 1 else 0}"
+
+end AQ
+
 def handle : List String → String
+  | ["aq.run", cap, mb, items] =>
+    match parseNat? cap, parseNat? mb, (listOf ';' items).mapM AQ.parseItem with
+    | some cap, some mb, some items => AQ.runItems ⟨cap, mb⟩ items
+    | _, _, _ => "bad-op"
   | ["mc.jump", key, n] =>
     match parseNat? key, parseNat? n with
     | some key, some n =>
